@@ -37,7 +37,7 @@ pub fn plan(id: usize) -> Option<Plan> {
         opts,
         quick_runs: q,
         thorough_runs: t,
-        adv_len: (64 * 1024, 1024 * 1024),
+        adv_len: (192 * 1024, 1024 * 1024),
         level,
     };
     Some(match id {
@@ -45,18 +45,18 @@ pub fn plan(id: usize) -> Option<Plan> {
         2 => p(&[2], &[Sweep, Sweep, Conn, Sweep, Conn], GenOpts { kinds: ALL, ..d }, 500_000, 10_000_000, "fault_enumeration"),
         3 => p(&[3], &[Conn, Conn, Sweep], GenOpts { kinds: ALL, ..d }, 750_000, 12_000_000, "exploration"),
         4 => p(&[4], &[Conn, Sweep, Reuse], GenOpts { kinds: MSG3, ..d }, 750_000, 12_000_000, "exploration"),
-        5 => p(&[5], &[Conn, Sweep, Conn], GenOpts { kinds: MSG3, ..d }, 750_000, 12_000_000, "exploration"),
+        5 => p(&[5], &[Conn, Sweep, Conn, Reuse], GenOpts { kinds: MSG3, ..d }, 750_000, 12_000_000, "exploration"),
         6 => p(&[6], &[Conn, Sweep], GenOpts { kinds: REQ, ..d }, 750_000, 12_000_000, "exploration"),
         7 => p(&[7], &[Conn, Sweep], GenOpts { kinds: RESP, ..d }, 750_000, 12_000_000, "exploration"),
         8 => p(&[8], &[Conn, Sweep], GenOpts { kinds: MSG3, cfg_mask: 4 | 8, ..d }, 750_000, 12_000_000, "exploration"),
         9 => p(&[9], &[Conn, Sweep, Sweep], GenOpts { kinds: CHUNKY, chunk_heavy: true, ..d }, 750_000, 12_000_000, "exploration"),
-        10 => p(&[10], &[Conn, Sweep], GenOpts { kinds: MSG3, ..d }, 750_000, 12_000_000, "exploration"),
+        10 => p(&[10], &[Conn, Sweep, Conn, Sweep, Adversarial], GenOpts { kinds: MSG3, ..d }, 750_000, 12_000_000, "exploration"),
         11 => p(&[11], &[Sweep, Sweep, Conn], GenOpts { kinds: ALL, ..d }, 150_000, 3_000_000, "exploration"),
         13 => p(&[13], &[Conn, Sweep, Adversarial], GenOpts { kinds: ALL, ..d }, 400_000, 8_000_000, "exploration"),
         14 => p(&[14], &[Conn, Sweep], GenOpts { kinds: RR, ..d }, 750_000, 12_000_000, "exploration"),
         15 => p(&[15], &[Conn, Sweep], GenOpts { kinds: RR, ..d }, 250_000, 5_000_000, "exploration"),
         16 => p(&[16], &[Conn, Sweep], GenOpts { kinds: RR, ..d }, 375_000, 8_000_000, "exploration"),
-        17 => p(&[17], &[Conn, Sweep, Reuse, Sweep], GenOpts { kinds: MSG3, ..d }, 300_000, 6_000_000, "fault_enumeration"),
+        17 => p(&[17], &[Conn, Sweep, Reuse, Sweep, Adversarial], GenOpts { kinds: MSG3, ..d }, 300_000, 6_000_000, "fault_enumeration"),
         18 => p(&[18], &[Reuse, Reuse, Conn], GenOpts { kinds: RR, ..d }, 750_000, 12_000_000, "exploration"),
         19 => p(&[19], &[Conn, Sweep, Adversarial, Reuse], GenOpts { kinds: ALL, ..d }, 650_000, 12_000_000, "exploration"),
         20 => p(&[20], &[Adversarial, Conn, Adversarial, Sweep], GenOpts { kinds: ALL, ..d }, 150_000, 1_500_000, "exploration"),
@@ -96,6 +96,10 @@ impl Plan {
             // a share of the runs inject allocation failure instead of counting
             if index % 5 == 0 {
                 t.alloc_mode = 2;
+            }
+            // and a share run with the environment fault: cold dispatch cache + every getenv hit
+            if index % 7 == 3 {
+                t.alloc_mode = 1 | 4;
             }
         }
         if self.id == 14 && t.cfg & (1 | 2 | 16 | 32 | 64) == 0 {
